@@ -8,9 +8,11 @@ import (
 	"iter"
 	"log/slog"
 	"os"
+	"reflect"
 	"strings"
 	"sync"
 	"time"
+	"unsafe"
 
 	gproto "google.golang.org/protobuf/proto"
 	"reduction.dev/reduction/clocks"
@@ -33,7 +35,7 @@ type events struct {
 }
 
 type ev struct {
-	Kind string // log | every | deploy | startckpt | assign | retain | splitter.new | splitter.start | write | wrote
+	Kind string // log | every | ticker.stop | deploy | startckpt | assign | retain | splitter.new | splitter.start | write | wrote
 	Node string
 	Msg  string
 	Id   uint64
@@ -91,44 +93,121 @@ func (e *events) since(from int) []ev {
 
 // ------------------------------------------------------------------- clock ----
 
-// hclock is a frozen clocks.Clock whose tickers fire only through tick.
+// hclock is a clocks.Clock on frozen time whose tickers fire only when the
+// replayer fires them (tick) and - unlike clocks.FrozenClock, whose Ticker.Stop
+// is a no-op and whose callbacks stay registered by label for ever - HONOUR
+// Stop the way the production SystemClock does: a stopped ticker never fires
+// again. clocks.Ticker has only unexported fields, so the ticker handed to the
+// code under test is assembled with reflect+unsafe (cancel -> marks the ticker
+// stopped, trigger -> fires it); if the struct no longer has these two fields
+// stopObservable is false, the clock degrades to FrozenClock semantics and the
+// replayers count it (the progress clause is then only as strong as before).
 type hclock struct {
 	*clocks.FrozenClock
-	mu  sync.Mutex
-	fns map[string]func(*clocks.EveryContext)
-	ev  *events
-	who string
+	mu      sync.Mutex
+	tickers []*hticker
+	ev      *events
+	who     string
+}
+
+type hticker struct {
+	label   string
+	fn      func(*clocks.EveryContext)
+	stopped bool
 }
 
 func newClock(e *events, who string) *hclock {
-	return &hclock{FrozenClock: clocks.NewFrozenClock(), fns: map[string]func(*clocks.EveryContext){}, ev: e, who: who}
+	return &hclock{FrozenClock: clocks.NewFrozenClock(), ev: e, who: who}
+}
+
+var stopObservable = func() bool {
+	t := reflect.TypeOf(clocks.Ticker{})
+	c, ok1 := t.FieldByName("cancel")
+	g, ok2 := t.FieldByName("trigger")
+	return ok1 && ok2 && c.Type == reflect.TypeOf(context.CancelFunc(nil)) && g.Type == reflect.TypeOf(func() {})
+}()
+
+func setField(v reflect.Value, name string, x any) {
+	f := v.Elem().FieldByName(name)
+	reflect.NewAt(f.Type(), unsafe.Pointer(f.UnsafeAddr())).Elem().Set(reflect.ValueOf(x).Convert(f.Type()))
 }
 
 func (c *hclock) Every(d time.Duration, fn func(*clocks.EveryContext), label string) *clocks.Ticker {
+	ht := &hticker{label: label, fn: fn}
 	c.mu.Lock()
-	c.fns[label] = fn
+	if !stopObservable {
+		// FrozenClock semantics: one callback per label, never stopped
+		keep := c.tickers[:0]
+		for _, t := range c.tickers {
+			if t.label != label {
+				keep = append(keep, t)
+			}
+		}
+		c.tickers = keep
+	}
+	c.tickers = append(c.tickers, ht)
 	c.mu.Unlock()
-	t := c.FrozenClock.Every(d, fn, label)
+	var t *clocks.Ticker
+	if stopObservable {
+		t = &clocks.Ticker{}
+		setField(reflect.ValueOf(t), "cancel", context.CancelFunc(func() {
+			c.mu.Lock()
+			was := ht.stopped
+			ht.stopped = true
+			c.mu.Unlock()
+			if c.ev != nil && !was {
+				c.ev.add(ev{Kind: "ticker.stop", Node: c.who, Msg: label})
+			}
+		}))
+		setField(reflect.ValueOf(t), "trigger", func() { c.fire(ht) })
+	} else {
+		t = c.FrozenClock.Every(d, fn, label)
+	}
 	if c.ev != nil {
 		c.ev.add(ev{Kind: "every", Node: c.who, Msg: label})
 	}
 	return t
 }
 
-// tick runs the function registered under label on the caller's goroutine.
-func (c *hclock) tick(label string) bool {
+func (c *hclock) fire(ht *hticker) bool {
 	c.mu.Lock()
-	fn := c.fns[label]
+	dead := ht.stopped
 	c.mu.Unlock()
-	if fn == nil {
+	if dead {
 		return false
 	}
-	fn(&clocks.EveryContext{})
+	ht.fn(&clocks.EveryContext{})
 	return true
+}
+
+// live: the tickers registered under label that have not been stopped.
+func (c *hclock) live(label string) []*hticker {
+	c.mu.Lock()
+	defer c.mu.Unlock()
+	var out []*hticker
+	for _, t := range c.tickers {
+		if t.label == label && !t.stopped {
+			out = append(out, t)
+		}
+	}
+	return out
+}
+
+// tick fires, on the caller's goroutine, every ticker registered under label that has not been stopped (what the
+// passing of one period does on the production clock); false when there is none.
+func (c *hclock) tick(label string) bool {
+	ts := c.live(label)
+	for _, t := range ts {
+		c.fire(t)
+	}
+	return len(ts) > 0
 }
 
 // tickTimeout runs tick on its own goroutine and reports whether it returned within d.
 func (c *hclock) tickTimeout(label string, d time.Duration) (had, returned bool) {
+	if len(c.live(label)) == 0 {
+		return false, true
+	}
 	done := make(chan bool, 1)
 	go func() { done <- c.tick(label) }()
 	select {
